@@ -47,11 +47,19 @@ def run(tier):
         ci, k = index[rid]
         per.setdefault(ci, {})[k] = o
     direct = 0
+    unreached = 0
+    skipped = set()
     for ci, (name, p, root, src) in enumerate(corpus):
         rl = []
         for k in range(1, K + 1):
             o = per[ci][k]
             oc = o["outcome"][0]
+            if oc == "budget" and o["outcome"][1:] == ["never-done"]:
+                # the cancel point was never reached (no k-th dispatch poll happened): nothing to judge
+                unreached += 1
+                skipped.add((ci, k))
+                rl.append({"emits": [], "outcome": ["err", ["s", []]], "after": 0, "cancelsp": 0, "cancelemits": 0, "cancelled": False})
+                continue
             if oc in ("crash", "hang", "gopanic", "loaderr", "budget"):
                 verd.candidate("C11:sweep:%s:%s" % (name, oc), "program %s: cancel at poll %d ended in %s (did not stop promptly)" % (name, k, o["outcome"]),
                                {"program": name, "src": src, "k": k, "real": o})
@@ -73,7 +81,9 @@ def run(tier):
         for c in cs:
             name, p, root, src = corpus[c["id"] - 1]
             for k, j in enumerate(c["js"], 1):
-                if j == "ok":
+                if (c["id"] - 1, k) in skipped:
+                    judged["unknown"] += 1
+                elif j == "ok":
                     judged["ok"] += 1
                 elif j == "unknown":
                     judged["unknown"] += 1
@@ -82,8 +92,7 @@ def run(tier):
                     verd.candidate("C11:sweep:%s:%s" % (name, j[4:40]), "program %s, context done from dispatch poll %d: %s" % (name, k, j[4:]),
                                    {"program": name, "src": src, "k": k, "real": per[c["id"] - 1][k]})
     vlib.log("[C11] sweep: %d programs x %d cancel points = %d runs: %s" % (len(corpus), K, len(runs), json.dumps(judged)))
-    if judged["unknown"] > 0.15 * len(runs):
-        raise vlib.Infra("undecided cancel points %.1f%% exceed 15%%" % (100.0 * judged["unknown"] / len(runs)))
+    undecided = judged["unknown"] > 0.15 * len(runs)
     # ---- blocking channel operations / coroutines with a real context (bounded wait)
     rc, out, err = vlib.run_harness(["c11-chan"], timeout=120)
     chan = json.loads(out)
@@ -109,12 +118,15 @@ def run(tier):
             verd.candidate("C11:undone-context-changes-behaviour", "program behaves differently with an (undone) context attached", {"program": p, "with": a, "without": b})
     vlib.log("[C11] context attached (undone) vs no context: %d/%d identical traces" % (same, len(progs)))
     rc = verd.finish()
+    if rc == 0 and undecided:
+        # nothing wrong was seen, but too little was decided to say the property held
+        raise vlib.Infra("undecided cancel points %.1f%% exceed 15%%" % (100.0 * judged["unknown"] / len(runs)))
     vlib.write_evidence(PROP, tier, "model_checking", {
         "states": stats["states"], "transitions": stats["transitions"],
         "traces_validated_against_impl": judged["ok"] + same,
         "evaluations": len(runs) + len(chan) + len(progs), "distinct_nontrivial": judged["ok"],
         "rule": "one run per (corpus program, dispatch poll k <= %d) with the context done from poll k on; non-trivial = judged ok by LuaSemCancel with the context actually done during the run or the program finished identically" % K,
-        "cancel_sweep": {"programs": [c[0] for c in corpus], "cancel_points_per_program": K, "judged": judged, "crash_or_hang": direct},
+        "cancel_sweep": {"programs": [c[0] for c in corpus], "cancel_points_per_program": K, "judged": judged, "crash_or_hang": direct, "cancel_point_never_reached": unreached},
         "blocking_ops": chan, "ctx_vs_noctx_identical": same,
         "samples": [{"program": corpus[0][0], "src": corpus[0][3], "cancel_at_poll_20": per[0][20]}],
         "exhaustive": False, "known_findings_hit": sorted(verd.known_hit),
